@@ -23,7 +23,10 @@ BOUND = ("real StandardCombi with TrapezoidalGrid + Integration; d in {1,2,3}; 1
          "hierarchical hat functions of the sparse grid and one smooth function are used (one vector-valued Function with 2N+1 outputs, N = number "
          "of sparse-grid points); evaluation points: every sparse-grid point, 24 fixed off-grid probe points (incl. points on coarse grid lines and near "
          "the boundary), and the full tensor grid of level-lmax coordinates for interpolate_grid. Plus (clause B.counts only) the "
-         "configuration where the box handed to StandardCombi ends one ulp below the b of the grid (DESIGN 9-4)")
+         "configuration where the box handed to StandardCombi ends one ulp below the b of the grid (DESIGN 9-4). History (round 2): every standard case asks "
+         "the same instance twice (second perform_operation / __call__ / get_points_and_weights, stability of the reported result array); kind "
+         "'after-coefficient-update' (quick 7, thorough all (d,lmin,lmax)): two CombiScheme and two StandardCombi of the same (dim,lmin,lmax) are created "
+         "first, object sharing is checked, their coefficients are overwritten in place, then a fresh instance runs every clause")
 RULE = BOUND + ("; one case = (d, lmin, lmax, box, boundary); non-trivial = the scheme has >= 2 component grids (d>=2 and lmin<lmax); tolerances: interpolated "
                 "values abs 1e-10 (values in [0,1]), integrals rel 1e-10, coefficient sums exact")
 BUDGET = {"quick": 60.0, "thorough": 800.0}
@@ -37,6 +40,8 @@ CLAUSES = {
     "B.points.union": "the union of get_points_component_grid over the scheme == the independently enumerated sparse grid; every component grid has distinct points on the level-l lattice",
     "B.points.coeffsum": "for every sparse-grid point the coefficients of the component grids containing it sum to exactly 1",
     "B.counts": "get_num_points_component_grid == len(get_points_component_grid) == len(points) == len(weights) of get_points_and_weights_component_grid == own count prod(2^l_i + 1 [-2 without boundary])",
+    "B.history.idempotent": "the same instance asked twice gives the same answers: second perform_operation == first, second __call__ == first, second get_points_and_weights == first; the result array reported by the first perform_operation still holds the reported values after all later queries and the second run",
+    "B.history.scheme_ownership": "scheme objects are owned by their instance: getCombiScheme of two CombiScheme instances (and the schemes of two StandardCombi) of the same (dim,lmin,lmax) share no ComponentGridInfo object and no level-vector memory; after the coefficients of one scheme were overwritten in place (as Regression.optimize_coefficients does), a later instance has the closed-form coefficients (-1)^q binom(d-1,q) and passes every other clause (witness classes '...-after-foreign-coefficient-update')",
     "B.weights.consistent": "get_points_and_weights: len(points) == len(weights) == sum of the component counts; summing coefficient*weight per sparse-grid point gives the integral that perform_operation reports for the nodal unit function of that point; sum_k W_k phi(P_k) == closed-form integral of every hat function",
 }
 
@@ -176,6 +181,90 @@ def run_case(ctx, case):
     tag = "bnd%s" % ("on" if boundary else "off")
     if case.get("kind") == "box-ulp":
         return run_box_ulp(ctx, case)
+    restore = None
+    if case.get("kind") == "after-coefficient-update":
+        restore = foreign_history(ctx, case)
+        tag += "-after-foreign-coefficient-update"
+    try:
+        run_standard(ctx, case, tag)
+    finally:
+        if restore:
+            restore()
+
+
+def closed_form_coefficient(levelvec, d, lmin, lmax):
+    q = lmax + (d - 1) * lmin - int(sum(int(x) for x in levelvec))
+    return float((-1) ** q * math.comb(d - 1, q)) if 0 <= q <= d - 1 else None
+
+
+def foreign_history(ctx, case):
+    """History: other instances with the same (dim, lmin, lmax) exist, and the coefficients / level vectors of THEIR scheme objects are
+    overwritten in place (the library does this itself in Regression.optimize_coefficients).  Returns a function undoing the overwrite."""
+    from sparseSpACE.StandardCombi import StandardCombi
+    from sparseSpACE.GridOperation import Integration
+    from sparseSpACE.Grid import TrapezoidalGrid
+    from sparseSpACE.Function import FunctionLinear
+    from sparseSpACE.combiScheme import CombiScheme
+    d, lmin, lmax, a, b = case["d"], case["lmin"], case["lmax"], case["a"], case["b"]
+    site = "sparseSpACE.combiScheme:CombiScheme.getCombiScheme"
+    st = {}
+    with ctx.guard("B.total", site, "scheme-history-raises"):
+        with quiet():
+            s1 = CombiScheme(d).getCombiScheme(lmin, lmax, do_print=False)
+            s2 = CombiScheme(d).getCombiScheme(lmin, lmax, do_print=False)
+            combis = []
+            for _ in range(2):
+                op = Integration(FunctionLinear([1.0] * d), grid=TrapezoidalGrid(np.array(a), np.array(b), boundary=True), dim=d)
+                c = StandardCombi(np.array(a), np.array(b), operation=op, print_output=False)
+                c.perform_operation(lmin, lmax)
+                combis.append(c)
+            st["schemes"] = [s1, s2, combis[0].scheme, combis[1].scheme]
+    if "schemes" not in st:
+        return None
+    schemes = st["schemes"]
+    shared = []
+    for i in range(len(schemes)):
+        for j in range(i + 1, len(schemes)):
+            ids = {id(g) for g in schemes[i]} & {id(g) for g in schemes[j]}
+            mem = any(np.shares_memory(np.asarray(g.levelvector), np.asarray(h.levelvector)) for g in schemes[i] for h in schemes[j]
+                      if isinstance(g.levelvector, np.ndarray) and isinstance(h.levelvector, np.ndarray))
+            if ids or mem:
+                shared.append((i, j, len(ids), mem))
+    same_values = all(sorted((tuple(int(x) for x in g.levelvector), float(g.coefficient)) for g in sc) ==
+                      sorted((tuple(int(x) for x in g.levelvector), float(g.coefficient)) for g in schemes[0]) for sc in schemes)
+    ctx.check("B.history.scheme_ownership", not shared and same_values, site, "scheme-objects-shared-between-instances",
+              "pairs of schemes (0,1: CombiScheme; 2,3: StandardCombi) sharing objects (count) / level-vector memory: %s; equal values: %s" % (shared, same_values))
+    # overwrite in place, remember how to undo
+    saved = []
+    for sc in schemes:
+        for k, g in enumerate(sc):
+            saved.append((g, g.coefficient, np.array(g.levelvector).copy()))
+    for sc in schemes:
+        for k, g in enumerate(sc):
+            g.coefficient = 7.5 + k          # (level vectors are left alone: memory sharing is already checked above)
+    # a later instance must have the closed-form scheme
+    with ctx.guard("B.total", site, "scheme-history-raises"):
+        with quiet():
+            later = CombiScheme(d).getCombiScheme(lmin, lmax, do_print=False)
+        bad = [(list(map(int, g.levelvector)), g.coefficient) for g in later
+               if closed_form_coefficient(g.levelvector, d, lmin, lmax) != float(g.coefficient) or min(int(x) for x in g.levelvector) < lmin]
+        ctx.check("B.history.scheme_ownership", not bad, site, "later-scheme-after-foreign-coefficient-update",
+                  "level vectors / coefficients of a fresh scheme that differ from (-1)^q binom(d-1,q): %s" % bad[:4])
+
+    def restore():
+        for g, c, lv in saved:
+            g.coefficient = c
+            if isinstance(g.levelvector, np.ndarray):
+                g.levelvector[...] = lv
+    return restore
+
+
+def run_standard(ctx, case, tag):
+    from sparseSpACE.StandardCombi import StandardCombi
+    from sparseSpACE.GridOperation import Integration
+    from sparseSpACE.Grid import TrapezoidalGrid
+    d, lmin, lmax, boundary = case["d"], case["lmin"], case["lmax"], case["boundary"]
+    a, b = case["a"], case["b"]
     orc = Oracle(d, lmin, lmax, boundary, a, b)
     N = orc.N
     st = {}
@@ -186,7 +275,8 @@ def run_case(ctx, case):
             op = Integration(F, grid=grid, dim=d)
             combi = StandardCombi(np.array(a), np.array(b), operation=op, print_output=False)
             scheme, _err, result = combi.perform_operation(lmin, lmax)
-            st["result"] = np.asarray(result, dtype=float).ravel()
+            st["result_live"] = result                                             # the object handed to the caller, NOT copied
+            st["result"] = np.array(result, dtype=float).ravel()                   # copy taken at report time
     if "result" not in st:
         return
     result = st["result"]
@@ -304,6 +394,31 @@ def run_case(ctx, case):
                 msg += "points outside the sparse grid"
         ctx.check("B.weights.consistent", good, S_PW, tag + "-points-weights", msg)
 
+    # ---- history on the same instance: ask everything a second time
+    with ctx.guard("B.total", S_PERF, tag + "-second-run-raises"):
+        with quiet():
+            live_after_queries = np.array(st["result_live"], dtype=float).ravel()
+            vals2 = np.asarray(combi(sp + probes), dtype=float) if "vals" in st and N <= 120 else None     # (costly for large N)
+            P2, W2 = combi.get_points_and_weights() if "P" in st else (None, None)
+            _s2, _e2, result2 = combi.perform_operation(lmin, lmax)
+            result2 = np.array(result2, dtype=float).ravel()
+            live_after_rerun = np.array(st["result_live"], dtype=float).ravel()
+            st["second"] = True
+    if st.get("second"):
+        scale = float(np.prod(orc.b - orc.a)) * 2.3 ** d
+        problems = []
+        if not np.array_equal(live_after_queries, result):
+            problems.append("reported result array changed by later queries")
+        if not np.array_equal(live_after_rerun, result):
+            problems.append("reported result array changed by the second perform_operation")
+        if result2.shape != result.shape or np.max(np.abs(result2 - result)) > 1e-13 * scale:
+            problems.append("second perform_operation differs by %s" % (np.max(np.abs(result2 - result)) if result2.shape == result.shape else result2.shape))
+        if vals2 is not None and (vals2.shape != st["vals"].shape or np.max(np.abs(vals2 - st["vals"])) > 1e-13 * 2.3 ** d):
+            problems.append("second __call__ differs")
+        if P2 is not None and not (np.array_equal(np.asarray(P2, dtype=float).reshape(-1, d), st["P"]) and np.array_equal(np.asarray(W2, dtype=float).ravel(), st["W"])):
+            problems.append("second get_points_and_weights differs")
+        ctx.check("B.history.idempotent", not problems, S_PERF, tag + "-same-instance-twice", "; ".join(problems))
+
 
 def run_box_ulp(ctx, case):
     """The box handed to StandardCombi ends one ulp below the grid's b in the last dimension (boundary off): counts must still agree."""
@@ -366,6 +481,15 @@ def run(ctx):
                         do_case(ctx, build_case(d, lmin, lmax, box, boundary))
     for d, lmin, lmax, box in ((1, 1, 2, 0), (2, 1, 3, 2), (3, 1, 2, 1)):
         do_case(ctx, build_case(d, lmin, lmax, box, False, kind="box-ulp"))
+    # history: other instances of the same (dim, lmin, lmax) were used and their scheme objects overwritten in place before this instance
+    hist = [(1, 1, 3), (2, 1, 2), (2, 1, 3), (2, 2, 4), (3, 1, 2), (3, 1, 3), (3, 2, 3)]
+    if not quick:
+        hist = [(d, lmin, lmax) for d in (1, 2, 3) for lmax in range(1, (4 if d < 3 else 3) + 1) for lmin in range(1, lmax + 1)]
+    for n, (d, lmin, lmax) in enumerate(hist):
+        if ctx.out_of_time(0.98):
+            ctx.exhaustive = False
+            return
+        do_case(ctx, build_case(d, lmin, lmax, n % len(BOXES), bool((n + 1) % 2), kind="after-coefficient-update"))
 
 
 def replay(ctx, case):
